@@ -3,6 +3,8 @@ package props
 import (
 	"encoding/json"
 	"fmt"
+	"os"
+	"path/filepath"
 	"strings"
 	"time"
 
@@ -194,7 +196,67 @@ func runC15(r *core.Run) {
 		reported[x.sig] = true
 		r.Violation(x.sig, x.what, map[string]interface{}{"program": renderStmts(cases[i].Prog, ""), "expected_out": cases[i].Out, "expected_end": cases[i].End})
 	}
+	c15Concurrent(r)
 	r.Sample(map[string]interface{}{"program": renderStmts(cases[len(cases)/2].Prog, ""), "prints": cases[len(cases)/2].Out, "ends": cases[len(cases)/2].End})
 	r.Coverage["traces_validated_against_impl"] = len(cases)
 	r.Coverage["exhaustive"] = true
+}
+
+// c15Concurrent: invocations of one function made by several worker goroutines at once (a scalar function in the select
+// list of a table big enough to be split, a user-defined aggregate with OVER over many partitions, one with GROUP BY).
+// Every invocation has its own parameters: a function that returns its parameter returns, for every row, the value of
+// the argument written for THAT row.  The last argument of every call is slow (an external command), so that the
+// arguments of one row are still being evaluated while another worker evaluates those of its row - the window in which
+// state shared between invocations would show.
+func c15Concurrent(r *core.Run) {
+	dir := r.Dir("conc")
+	defer os.RemoveAll(dir)
+	var big, parts strings.Builder
+	big.WriteString("id,v\n")
+	for i := 1; i <= 170; i++ {
+		fmt.Fprintf(&big, "%d,%d\n", i, i%7)
+	}
+	parts.WriteString("id,g,v\n")
+	for i := 1; i <= 36; i++ {
+		fmt.Fprintf(&parts, "%d,%d,%d\n", i, (i-1)/2, i%5)
+	}
+	writeFile(filepath.Join(dir, "big.csv"), big.String())
+	writeFile(filepath.Join(dir, "parts.csv"), parts.String())
+	p, err := sut.NewProc(dir, nil)
+	if err != nil {
+		core.Fail("proc: %v", err)
+	}
+	defer p.End()
+	pre := "SET @@CPU TO 4; DECLARE idf FUNCTION (@a, @z) AS BEGIN VAR @l := @a; RETURN @l; END; " +
+		"DECLARE own AGGREGATE (c, @a, @z) AS BEGIN VAR @l := @a; RETURN @l; END;"
+	if rs := p.Exec(pre); rs.Err != "" {
+		core.Fail("c15 concurrent: %s", rs.Err)
+	}
+	slow := "CALL('sleep', '0.004')"
+	for _, q := range []struct{ name, sql string }{
+		{"scalar", "SELECT id, idf(id, " + slow + ") AS o FROM big;"},
+		{"aggregate-over", "SELECT id, own(v, id, " + slow + ") OVER (PARTITION BY g) AS o FROM parts;"},
+		{"aggregate-group", "SELECT g, own(v, g, " + slow + ") AS o FROM parts GROUP BY g;"},
+	} {
+		rs := p.Exec(q.sql)
+		if rs.Err != "" {
+			r.Violation("scope:concurrent:"+q.name+":error", q.sql+" fails: "+firstLine(rs.Err), map[string]interface{}{"sql": q.sql})
+			continue
+		}
+		ts, err := sut.ParseJSONTables(rs.Out)
+		if err != nil || len(ts) != 1 {
+			core.Fail("c15 concurrent: cannot parse the result of %s", q.sql)
+		}
+		bad := ""
+		for _, row := range ts[0].Rows {
+			if len(row) != 2 || row[0].String() != row[1].String() {
+				bad = fmt.Sprintf("row %s: the function returned %s for the argument %s", row[0].String(), row[1].String(), row[0].String())
+				break
+			}
+		}
+		r.Count("concurrent_invocation_rows", len(ts[0].Rows))
+		if bad != "" {
+			r.Violation("scope:concurrent:"+q.name, q.sql+": an invocation saw the parameter of another one - "+bad, map[string]interface{}{"sql": q.sql})
+		}
+	}
 }
